@@ -312,6 +312,14 @@ def diagnose(res_a, res_b):
         return out
     if e and e["a"] and e["b"] and e["a"][0] == e["b"][0] and (d is None or e["a"][0] <= d["index"]):
         A, B = e["a"], e["b"]
+        if "subprocess" in (A[3], B[3]):
+            # a batch of the subprocess executor (assertion filtering / mutation analysis).  After a timeout the executor
+            # falls back to smaller batches, so a timeout shows up as another timeout count or another batch shape.
+            if A[2] or B[2]:
+                out.update(kind="timing", key="timing:subprocess-batch-timeout:nonempty-test")
+            else:
+                out.update(kind="generation", key="subprocess-batch-differs-without-timeout")
+            return out
         if len(A) > 6:
             out["exec_detail"] = {"code_a": A[6], "seen_a": A[7], "code_b": B[6] if len(B) > 6 else None, "seen_b": B[7] if len(B) > 7 else None}
         if A[1] == B[1] and A[3] == B[3]:
